@@ -1053,6 +1053,7 @@ def section_rules(ctx):
     want_rows = {'Continuous': ['Continuous'], 'Binary': ['Binary'], 'Integer': ['Integer'], 'Mixed': [], 'General': []}
     ctx.check(rows == want_rows, R + '/var-types-from-letter', 'T-TABLE', b.name, 'letter-derived variable types are %s, expected %s' % (rows, want_rows), b.site())
     vartype_rules(ctx, b, st, kinds, ru)
+    count_rules(ctx, b, st, readers)
     # binary problems: bounds [0,1] -- the only float literal that can become a lower bound is 0, an upper bound 1
     # (`vec![0.; n]`, `repeat(0.).take(n).collect()`, a helper: any way of filling; which of the two is which is part of the rule)
     def fill_literals(field):
@@ -1096,6 +1097,137 @@ def section_rules(ctx):
     q0 = first('q0_non_zeroes'); d0 = first('default_b0')
     if q0 and d0:
         ctx.check(before(q0, d0), R + '/order/q0-then-b0', 'T-BRANCHFX', b.name, 'Q0 is not read before b0', b.site(q0.bb))
+
+
+# which count the indices of a section range over / how many entries a list section has (QPLIB: i, j are variable indices, the list position
+# of Q^i / b^i and the keys of y and of the constraint names are constraint indices)
+SECTION_RANGE = {'q0_non_zeroes': 'num_vars', 'b0_non_defaults': 'num_vars', 'qs_non_zeroes': 'num_vars', 'bs_non_zeroes': 'num_vars',
+                 'starting_x': 'num_vars', 'starting_z': 'num_vars', 'var_names': 'num_vars',
+                 'starting_y': 'num_constraints', 'constr_names': 'num_constraints'}
+SECTION_LENGTH = {'lower_bounds': 'num_vars', 'upper_bounds': 'num_vars', 'var_types': 'num_vars',
+                  'constr_lower_cs': 'num_constraints', 'constr_upper_cs': 'num_constraints', 'qs_non_zeroes': 'num_constraints', 'bs_non_zeroes': 'num_constraints'}
+
+
+def count_rules(ctx, b, st, readers):
+    """(1) every list section is read / filled with the length the format gives it; (2) wherever an index taken from a section is compared
+    with a count (a validation such as `keys().all(|&i| i < limit)`, written anywhere, also in a helper new on this tree), the count is the one
+    the section's indices range over.  (2) has no instance on a tree that does not validate."""
+    R = 'C19.sections'
+    def holders(op):
+        out = set(); work = [op['pl']['l']] if op is not None and op['k'] in ('copy', 'move') else []
+        while work:
+            l = work.pop()
+            if l in out: continue
+            out.add(l)
+            for k, bb, d in b.defs_of(l):
+                if k == 'stmt' and not d['dst']['p'] and d['rv']['k'] == 'use' and d['rv']['ops'][0]['k'] in ('copy', 'move') and not d['rv']['ops'][0]['pl']['p']: work.append(d['rv']['ops'][0]['pl']['l'])
+        return out
+    H = {f: holders(agg_field_operand(st, f)) for f in st['rv']['fields']}
+    def count_kind(o):
+        """'num_vars' / 'num_constraints' if the operand is that count itself (through plain copies, casts, helper parameters)"""
+        for _ in range(12):
+            if o['k'] not in ('copy', 'move') or [p for p in o['pl']['p'] if p != '*']: return None
+            l = o['pl']['l']
+            hit = [k for k in ('num_vars', 'num_constraints') if l in H.get(k, ())]
+            if hit: return hit[0] if len(hit) == 1 else None
+            ds = [d for d in b.defs_of(l) if not (d[0] == 'stmt' and d[2]['dst']['p'])]
+            if len(ds) != 1 or ds[0][0] != 'stmt': return None
+            rv = ds[0][2]['rv']
+            if rv['k'] in ('use', 'cast'): o = rv['ops'][0]
+            elif rv['k'] == 'ref': o = {'k': 'copy', 'pl': rv['pl']}
+            else: return None
+        return None
+    # (1) lengths
+    for f, want in SECTION_LENGTH.items():
+        op = agg_field_operand(st, f)
+        sized = []
+        for c in origin_calls(b, op) if op is not None else []:
+            if c.path.startswith('qplib::parser::FileCursor') and c.item in ('collect_list', 'collect_list_of_i_val', 'collect_list_of_ij_val') and len(c.args) == 2: sized.append((c, c.args[1]))
+            elif c.item == 'from_elem' and len(c.args) == 2: sized.append((c, c.args[1]))
+        got = sorted({str(count_kind(a)) for c, a in sized})
+        if not sized: continue          # e.g. var_types of I problems come out of integer_to_binary; the reader rules report a missing reader
+        ctx.check(got == [want], R + '/length/' + f, 'T-CARRY', b.name, 'QplibFile.%s is read / filled with length %s, the format says %s' % (f, got, want), b.site(sized[0][0].bb))
+    # (2) index validations
+    inv = {}
+    for f in SECTION_RANGE:
+        for l in H.get(f, ()): inv.setdefault(l, set()).add(f)
+    for b2, s2 in b.stmts():
+        rv = s2['rv']
+        if not (rv['k'] == 'bin' and rv['op'] in ('Lt', 'Le', 'Gt', 'Ge') and rv.get('ty') == 'usize'): continue
+        kinds = [count_kind(o) for o in rv['ops']]
+        for i in (0, 1):
+            if kinds[i] is None or kinds[1 - i] is not None: continue
+            secs = sorted({f for l in ctx.S.slice_operand(b, rv['ops'][1 - i]).locals for f in inv.get(l, ())})
+            if not secs: continue
+            if len(secs) > 1:
+                ctx.undecided(R + '/index-range', 'T-CARRY', b.site(b2), 'an index compared with %s may come from several sections: %s' % (kinds[i], secs)); continue
+            ctx.check(SECTION_RANGE[secs[0]] == kinds[i], R + '/index-range/' + secs[0], 'T-CARRY', b.name,
+                      'an index of the section %s is checked against %s; its indices range over %s' % (secs[0], kinds[i], SECTION_RANGE[secs[0]]), b.site(b2))
+
+
+# =============================================================================== C19.tokens
+# declared names (and every other field) are the whitespace-separated tokens of the line as it stands: the line is split on whitespace only,
+# the thing that is split is the whole line, and nothing cuts characters out of it
+STR_SPLITS = ('split', 'rsplit', 'splitn', 'rsplitn', 'split_terminator', 'rsplit_terminator', 'split_inclusive', 'split_once', 'rsplit_once')
+WS_SPLITS = ('split_whitespace', 'split_ascii_whitespace')
+STR_CUTTERS = ('find', 'rfind', 'split_at', 'split_at_checked', 'trim_matches', 'trim_start_matches', 'trim_end_matches', 'strip_prefix', 'strip_suffix', 'replace', 'replacen',
+               'char_indices', 'match_indices', 'rmatch_indices', 'matches', 'truncate', 'drain', 'retain', 'get', 'get_unchecked', 'index', 'pop', 'remove')
+# views of the same text (leading / trailing whitespace is not part of any token)
+STR_VIEWS = re.compile(r'::(deref|as_str|as_ref|borrow|trim|trim_start|trim_end|trim_ascii|trim_ascii_start|trim_ascii_end|clone|to_owned|to_string|as_mut_str|branch|into|from)(::<.*>)?$')
+
+
+def _is_str_call(c):
+    return bool(re.match(r'^(core::str::<impl str>::|<&?(mut )?str as |std::string::String::|<&?(mut )?std::string::String as )', c.name))
+
+
+def _ws_predicate(ctx, b, a, depth=0):
+    """is the pattern operand a whitespace test?  `|c: char| c.is_ascii_whitespace()`, `char::is_whitespace`, a crate fn doing that, `' '`"""
+    if a['k'] == 'const':
+        v = a.get('v') or ''
+        if re.search(r'is_ascii_whitespace|char::methods::<impl char>::is_whitespace', v + ' ' + (a.get('fnp') or '')): return True
+        if re.fullmatch(r"(const )?'( |\\t)'", v.strip()): return True
+        fb = ctx.F.bodies.get(a.get('fnp') or '') or ctx.F.bodies.get(v)
+        return fb is not None and fb.kind == 'fn' and _ws_body(ctx, fb)
+    cb = closure_body(ctx, b, a)
+    return cb is not None and _ws_body(ctx, cb)
+
+
+def _ws_body(ctx, cb):
+    if not cb.calls or any(c.item not in ('is_ascii_whitespace', 'is_whitespace') for c in cb.calls): return False
+    if any(st['rv']['k'] == 'bin' for bi, st in cb.stmts()): return False
+    return not any(o['k'] == 'const' and o['v'].strip().startswith("'") for bi, st in cb.stmts() for o in st['rv'].get('ops', []))
+
+
+def token_rules(ctx):
+    R = 'C19.tokens'
+    fl = from_lines(ctx)
+    bodies = [b for b in ctx.F.bodies.values() if b.kind in ('fn', 'closure') and 'qplib::parser::FileCursor' in (b.hdr.get('self') or '')] + ([fl] if fl is not None else [])
+    if not bodies:
+        ctx.lost(R, 'qplib::parser::FileCursor'); return
+    bad_sep = []; cutters = []; splitters = []
+    for b in bodies:
+        for c in b.calls:
+            if not _is_str_call(c): continue
+            if c.item in WS_SPLITS: splitters.append((b, c))
+            elif c.item in STR_SPLITS:
+                pat = c.args[2] if c.item in ('splitn', 'rsplitn') and len(c.args) == 3 else (c.args[1] if len(c.args) >= 2 else None)
+                if pat is not None and _ws_predicate(ctx, b, pat): splitters.append((b, c))
+                else: bad_sep.append('%s: %s' % (b.site(c.bb), c.item))
+            elif c.item in STR_CUTTERS and (c.item not in ('get', 'get_unchecked', 'index', 'pop', 'remove', 'drain', 'retain', 'truncate') or (re.search(r'Range', c.name) if c.item in ('get', 'get_unchecked', 'index') else True)):
+                cutters.append('%s: %s' % (b.site(c.bb), c.item))
+    ctx.check(not bad_sep, R + '/separator', 'T-TABLE', 'qplib::parser::FileCursor', 'a line is split on something other than whitespace: %s' % bad_sep[:4])
+    ctx.check(not cutters, R + '/no-cutter', 'T-TABLE', 'qplib::parser::FileCursor', 'characters are cut out of a line / token: %s' % cutters[:4])
+    ctx.check(bool(splitters), R + '/splitters', 'T-TABLE', 'qplib::parser::FileCursor', 'no place where a line is split into whitespace-separated tokens was found')
+    for b, c in splitters:
+        # what is split: the line as `expect_next` delivered it, seen through views only
+        e = T.expr(b, c.args[0], depth=16); why = None
+        for x in _spine(e):
+            if x[0] == 'call' and x[1] == 'expect_next': break
+            if x[0] == 'call' and not STR_VIEWS.search(T.strip_generics_tail(x[2])): why = 'through `%s`' % x[1]; break
+            if x[0] in ('bin', 'un'): why = 'computed'; break
+        else:
+            why = why or 'not traced to an expect_next() result'
+        ctx.check(why is None, R + '/whole-line', 'T-CARRY', b.name, 'the text that is split into tokens is not the whole line (%s)' % why, b.site(c.bb))
 
 
 # =============================================================================== C19.vartypes
@@ -1663,8 +1795,10 @@ def dense_fill_sites(ctx, ob):
         for lo in T.for_loops(ob):
             si = ctx.S.slice_operand(ob, lo[0].args[0])
             if not si.has_field(QF, 'num_vars') or si.has_field(QF, 'b0_non_defaults'): continue
-            reads = any((QF, 'default_b0') in fields_of_place(o['pl']) for bi, st in ob.stmts() if bi in lo[4] for o in st['rv'].get('ops', []) if o['k'] in ('copy', 'move'))
-            reads = reads or any((QF, 'default_b0') in fields_of_place(st['rv']['pl']) for bi, st in ob.stmts() if bi in lo[4] and 'pl' in st['rv'])
+            # the default read inside the loop: the field itself, or a local / helper parameter / closure capture that holds it
+            # (`let QplibFile { default_b0, .. } = qplib`, `to_dense_linear(n, *default_b0, ..)` inlined by the normal form)
+            reads = any(has(o, 'default_b0') for bi, st in ob.stmts() if bi in lo[4] for o in st['rv'].get('ops', []) if o['k'] in ('copy', 'move'))
+            reads = reads or any(has({'k': 'copy', 'pl': st['rv']['pl']}, 'default_b0') for bi, st in ob.stmts() if bi in lo[4] and 'pl' in st['rv'])
             if reads: out.append(('range-loop', lo[1]))
     for c in ob.calls:
         if c.item == 'from_elem' and len(c.args) == 2 and has(c.args[0], 'default_b0') and has(c.args[1], 'num_vars'): out.append(('from_elem', c.bb))
@@ -1858,6 +1992,22 @@ _ITER_IDENTITY = re.compile(r'::(into_iter|iter|iter_mut|by_ref|copied|cloned|re
 _ELEMENT_OF = re.compile(r'::(index|index_mut|get|get_mut|get_unchecked|first|last|unwrap|expect|deref|deref_mut|as_ref|clone|cloned|copied|borrow|into|from)(::<.*>)?$')
 
 
+def closure_body(ctx, b, a):
+    """body of the closure an operand holds: found through its defining aggregate (plain copies / references followed), not through the
+    slice -- a slice also names every closure of the callees the value passes"""
+    o = a
+    for _ in range(6):
+        if o['k'] not in ('copy', 'move') or o['pl']['p']: return None
+        ds = [d for d in b.defs_of(o['pl']['l']) if not (d[0] == 'stmt' and d[2]['dst']['p'])]
+        if len(ds) != 1 or ds[0][0] != 'stmt': return None
+        rv = ds[0][2]['rv']
+        if rv['k'] == 'agg' and rv['adt'].startswith('closure:'): return ctx.F.bodies.get(rv['adt'][8:])
+        if rv['k'] == 'use': o = rv['ops'][0]; continue
+        if rv['k'] == 'ref': o = {'k': 'copy', 'pl': rv['pl']}; continue
+        return None
+    return None
+
+
 def item_tree(ctx, b, operand, depth=16):
     """shape of the items of the iterator in `operand`, leaves labelled with the QplibFile list they come from:
     ('leaf', field | '#index' | None) | ('tuple', [subtrees]).  None when the chain has a step that is not understood."""
@@ -1876,8 +2026,7 @@ def item_tree(ctx, b, operand, depth=16):
             return ('tuple', [a0, a1]) if a0 is not None and a1 is not None else None
         if c.item == 'map' and tr.endswith('Iterator') and len(c.args) == 2:
             sub = item_tree(ctx, b, c.args[0], depth - 1)
-            cl = ctx.S.slice_operand(b, c.args[1]).closures
-            cb = ctx.F.bodies.get(sorted(cl)[0]) if len(cl) == 1 else None
+            cb = closure_body(ctx, b, c.args[1])
             if sub is None or cb is None or cb.argc != 2: return None
             # the closure must be a pure re-tupling of its argument: `|((a, b), c)| (a, b, c)`
             rets = [st for bi, st in cb.stmts() if st['dst'] == {'l': 0, 'p': []}]
@@ -1966,6 +2115,6 @@ def enum_rows(ctx, b, ty, pick):
 
 
 def check(ctx):
-    codes_rules(ctx); section_rules(ctx); errors_rules(ctx); convert_rules(ctx)
-    ctx.floor('C19.codes', 15); ctx.floor('C19.sections', 39); ctx.floor('C19.convert.cover', 19); ctx.floor('C19.infinity', 3)
-    ctx.floor('C19.convert.half', 4); ctx.floor('C19.convert.sign', 15); ctx.floor('C19.convert.b0', 8); ctx.floor('C19.convert.wrap', 2); ctx.floor('C19.convert.vars', 4); ctx.floor('C19.vartypes', 3); ctx.floor('C19.convert.terms', 6)
+    codes_rules(ctx); section_rules(ctx); token_rules(ctx); errors_rules(ctx); convert_rules(ctx)
+    ctx.floor('C19.codes', 15); ctx.floor('C19.sections', 46); ctx.floor('C19.convert.cover', 19); ctx.floor('C19.infinity', 3)
+    ctx.floor('C19.convert.half', 4); ctx.floor('C19.convert.sign', 15); ctx.floor('C19.convert.b0', 8); ctx.floor('C19.convert.wrap', 2); ctx.floor('C19.convert.vars', 4); ctx.floor('C19.vartypes', 3); ctx.floor('C19.convert.terms', 6); ctx.floor('C19.tokens', 6)
